@@ -565,7 +565,35 @@ func (s *e20Suite) opConvertCoin() {
 	recv := s.receiverFor(sender)
 	recvStr, recvTok := s.hexForm(recv, 98)
 	senderStr, senderTok := s.bech(sender, 98)
-	s.doCC(denom, amt, recvStr, recvTok, senderStr, senderTok, s.pickDev("cc", 1, 3))
+	dev := s.pickDev("cc", 1, 3)
+	if dev.At > 0 && r.Intn(4) != 0 {
+		// the deviation should be what decides: an otherwise valid conversion of an enabled pair to oneself
+		if p, ok := s.pickEnabled(); ok {
+			denom = p.Denom
+			for i := 0; i < 6 && !s.w.App.BankKeeper.GetBalance(s.w.Ctx, sender, denom).IsPositive(); i++ {
+				sender = s.user()
+			}
+			if bal := s.w.App.BankKeeper.GetBalance(s.w.Ctx, sender, denom).Amount; bal.IsPositive() {
+				amt = r.Big(250).Mod(bal).AddRaw(1)
+				recvStr, recvTok = s.hexOf(sender)
+				senderStr, senderTok = s.bechOf(sender)
+			}
+		}
+	}
+	s.doCC(denom, amt, recvStr, recvTok, senderStr, senderTok, dev)
+}
+
+func (s *e20Suite) pickEnabled() (erc20types.TokenPair, bool) {
+	var sel []erc20types.TokenPair
+	for _, p := range s.pairs() {
+		if p.Enabled {
+			sel = append(sel, p)
+		}
+	}
+	if len(sel) == 0 {
+		return erc20types.TokenPair{}, false
+	}
+	return sel[s.r.Intn(len(sel))], true
 }
 
 func (s *e20Suite) doCC(denom string, amt sdkmath.Int, recvStr, recvTok, senderStr, senderTok string, dev Dev) {
@@ -630,7 +658,22 @@ func (s *e20Suite) opConvertERC20() {
 	recvStr, recvTok := s.bech(recv, 98)
 	senderStr, senderTok := s.hexForm(senderB, 98)
 	cStr, cTok := s.hexForm(contract.Bytes(), 98)
-	s.doCE(cStr, cTok, amt, recvStr, recvTok, senderStr, senderTok, s.pickDev("ce", 1, 3))
+	dev := s.pickDev("ce", 1, 3)
+	if dev.At > 0 && r.Intn(4) != 0 {
+		if p, ok := s.pickEnabled(); ok {
+			c := p.GetERC20Contract()
+			for i := 0; i < 6 && s.evm.Bal(s.w.Ctx, c, common.BytesToAddress(sender)).Sign() == 0; i++ {
+				sender = s.user()
+			}
+			if b := s.evm.Bal(s.w.Ctx, c, common.BytesToAddress(sender)); b.Sign() > 0 {
+				amt = r.Big(250).Mod(sdkmath.NewIntFromBigInt(b)).AddRaw(1)
+				cStr, cTok = s.hexOf(c.Bytes())
+				recvStr, recvTok = s.bechOf(sender)
+				senderStr, senderTok = s.hexOf(sender)
+			}
+		}
+	}
+	s.doCE(cStr, cTok, amt, recvStr, recvTok, senderStr, senderTok, dev)
 }
 
 func (s *e20Suite) doCE(cStr, cTok string, amt sdkmath.Int, recvStr, recvTok, senderStr, senderTok string, dev Dev) {
